@@ -47,7 +47,6 @@ def initIsInstance : RecvTy → Val → Except String Bool
   | .initDefault, _ => .ok true
   | .init t ia, v => match ctorOf pf t with
     | .none => .error "CTOR_NOT_FOUND"
-    | .unmodelled => .error "UNMODELLED"
     | .some c => .ok (initInstTest c ia v)
 
 /-- `px.IsAssignable(Init[T, ia], o)` for a contained type `T`: false whatever `o` is (see the header) -/
